@@ -80,31 +80,31 @@ theorem trail_reports_scalar {W : World} (hW : LeafReportsInput W) (hG : LeafNot
 /-! ### the reports of an ALL-mode sweep -/
 
 /-- (trail, class) pairs one item contributes -/
-def itemKeys1 (it : Option TrailEl × Outcome Val) : List (List TrailEl × String) :=
+def trailItemKeys1 (it : Option TrailEl × Outcome Val) : List (List TrailEl × String) :=
   match it.2 with
   | .err e => trailPreO it.1 (reportKeys e)
   | _ => []
 
-def itemKeys (items : List (Option TrailEl × Outcome Val)) : List (List TrailEl × String) :=
-  items.flatMap itemKeys1
+def trailItemKeys (items : List (Option TrailEl × Outcome Val)) : List (List TrailEl × String) :=
+  items.flatMap trailItemKeys1
 
 theorem trail_reportKeys_sweep (items : List (Option TrailEl × Outcome Val)) :
-    reportKeys (LErr.agg (sweepErrs items)) = itemKeys items := by
+    reportKeys (LErr.agg (trailSweepErrs items)) = trailItemKeys items := by
   rw [trail_reportKeys_agg]
   induction items with
-  | nil => simp [sweepErrs, itemKeys]
+  | nil => simp [trailSweepErrs, trailItemKeys]
   | cons it rest ih =>
     obtain ⟨el, o⟩ := it
-    simp only [sweepErrs, itemKeys] at ih
+    simp only [trailSweepErrs, trailItemKeys] at ih
     cases o <;>
-      simp [sweepErrs, itemKeys, itemKeys1, ih, trail_reportKeys_pushO]
+      simp [trailSweepErrs, trailItemKeys, trailItemKeys1, ih, trail_reportKeys_pushO]
 
 theorem trail_itemKeys_of_ok {items : List (Option TrailEl × Outcome Val)}
-    (h : ∀ it ∈ items, ∃ v, it.2 = .ok v) : itemKeys items = [] := by
-  simp only [itemKeys, List.flatMap_eq_nil_iff]
+    (h : ∀ it ∈ items, ∃ v, it.2 = .ok v) : trailItemKeys items = [] := by
+  simp only [trailItemKeys, List.flatMap_eq_nil_iff]
   intro it hit
   obtain ⟨v, hv⟩ := h it hit
-  simp [itemKeys1, hv]
+  simp [trailItemKeys1, hv]
 
 theorem trail_preO_ne_nil {α : Type} (el : Option TrailEl) {fs : List (List TrailEl × α)}
     (h : fs ≠ []) : trailPreO el fs ≠ [] := by
@@ -122,7 +122,7 @@ theorem trail_perm_flatMap {α β : Type} {l : List α} {f g : α → List β}
     contributions are a permutation of `F` whenever nothing escaped or diverged -/
 theorem faults_sweep_finish {items : List (Option TrailEl × Outcome Val)}
     {F : List (List TrailEl × String)}
-    (hperm : (∀ it ∈ items, trailClean it.2) → (itemKeys items).Perm F)
+    (hperm : (∀ it ∈ items, trailClean it.2) → (trailItemKeys items).Perm F)
     (hne : ∀ el e0, (el, Outcome.err e0) ∈ items → reportKeys e0 ≠ []) :
     (∀ vs, (sweepAll items).finish = .ok vs → F = []) ∧
     (∀ e, (sweepAll items).finish = .err e → (reportKeys e).Perm F ∧ reportKeys e ≠ []) := by
@@ -137,25 +137,25 @@ theorem faults_sweep_finish {items : List (Option TrailEl × Outcome Val)}
     rw [trail_reportKeys_sweep]
     refine ⟨hperm hclean, ?_⟩
     obtain ⟨c, cs, hcs⟩ := List.exists_cons_of_ne_nil hnn
-    have hc : c ∈ sweepErrs items := by rw [hcs]; exact List.mem_cons_self
+    have hc : c ∈ trailSweepErrs items := by rw [hcs]; exact List.mem_cons_self
     obtain ⟨el, e0, hmem, rfl⟩ := trail_mem_sweepErrs hc
     intro hnil
-    have hsub : itemKeys1 (el, Outcome.err e0) = [] := by
-      simp only [itemKeys, List.flatMap_eq_nil_iff] at hnil
+    have hsub : trailItemKeys1 (el, Outcome.err e0) = [] := by
+      simp only [trailItemKeys, List.flatMap_eq_nil_iff] at hnil
       exact hnil _ hmem
-    exact trail_preO_ne_nil el (hne el e0 hmem) (by simpa [itemKeys1] using hsub)
+    exact trail_preO_ne_nil el (hne el e0 hmem) (by simpa [trailItemKeys1] using hsub)
 
 /-- one item against the faults of its child -/
 theorem faults_item {o : Outcome Val} {F : List (List TrailEl × String)} (el : Option TrailEl)
     (hclean : trailClean o) (hok : ∀ v, o = .ok v → F = [])
     (herr : ∀ e, o = .err e → (reportKeys e).Perm F) :
-    (itemKeys1 (el, o)).Perm (trailPreO el F) := by
+    (trailItemKeys1 (el, o)).Perm (trailPreO el F) := by
   rcases hclean with ⟨v, rfl⟩ | ⟨e, rfl⟩
-  · rw [hok v rfl]; cases el <;> simp [itemKeys1, trailPreO, trailPre]
+  · rw [hok v rfl]; cases el <;> simp [trailItemKeys1, trailPreO, trailPre]
   · have := herr e rfl
     cases el with
-    | none => simpa [itemKeys1, trailPreO] using this
-    | some el => simpa [itemKeys1, trailPreO, trailPre] using this.map _
+    | none => simpa [trailItemKeys1, trailPreO] using this
+    | some el => simpa [trailItemKeys1, trailPreO, trailPre] using this.map _
 
 /-! ### exactly located trees have exactly located reports -/
 
